@@ -405,8 +405,70 @@ def run(ctx):
     from skchange.anomaly_detectors import CAPA, MVCAPA, StatThresholdAnomaliser
     reuse_stream(ctx, "CAPA", lambda: CAPA(min_segment_length=2), ctx.n(8, 60))
     reuse_stream(ctx, "MVCAPA", lambda: MVCAPA(min_segment_length=2), ctx.n(6, 40), p_choices=(2, 3))
+    capa_params_stream(ctx)
     reuse_stream(ctx, "StatThresholdAnomaliser(PELT)", lambda: StatThresholdAnomaliser(PELT(min_segment_length=2), stat_lower=-1.0, stat_upper=1.0), ctx.n(4, 30),
                  p_choices=(1,), other_shape=False)
+
+
+def capa_params_stream(ctx):
+    """CAPA / MVCAPA built on a cost-derived saving: the baseline cost's hyper-parameter is changed through the detector (nested set_params) and through
+    the user's own cost object; after a fit the detector must behave like a FRESH one built from the hyper-parameters get_params(deep=True) reports."""
+    from skchange.anomaly_detectors import CAPA, MVCAPA
+    from skchange.costs import GaussianVarCost, L2Cost
+    from harness.reuse import _canon, series
+    rng = ctx.rng
+    for h in range(ctx.n(16, 120)):
+        Det = [CAPA, MVCAPA][h % 2]
+        use_gv = h % 4 >= 2
+        mkcost = (lambda v: GaussianVarCost(param=(v, 1.0))) if use_gv else (lambda v: L2Cost(param=v))
+        getv = (lambda c: c.get_params()["param"][0]) if use_gv else (lambda c: c.get_params()["param"])
+        setv = (lambda c, v: c.set_params(param=(v, 1.0))) if use_gv else (lambda c, v: c.set_params(param=v))
+        p = rng.choice([1, 2])
+        n = rng.randint(24, 40)
+        A, B, _ = series(rng, n, p, 3)
+        A, B = A + 4.0, B + 4.0                  # the level of the data is 4: a baseline mean of 0 and one of 4 give very different savings
+        cost = mkcost(0.0)
+        det = Det(collective_saving=cost, min_segment_length=2)
+        hist = [f"{Det.__name__}(collective_saving={type(cost).__name__}(mean 0.0))"]
+        fitted = None
+        for step in range(rng.randint(3, 9)):
+            r = rng.random()
+            inp = {"detector": Det.__name__, "cost": type(cost).__name__, "history": list(hist), "A": A.to_numpy().tolist(), "B": B.to_numpy().tolist()}
+            try:
+                if r < 0.25:
+                    v = rng.choice([4.0, 0.0, 2.0])
+                    hist.append(f"det.set_params(collective_saving__param -> mean {v})")
+                    det.set_params(collective_saving__param=((v, 1.0) if use_gv else v))
+                    fitted = None
+                elif r < 0.45:
+                    v = rng.choice([4.0, 0.0, 2.0])
+                    hist.append(f"user's cost object .set_params(mean {v})")
+                    setv(det.get_params(deep=False)["collective_saving"], v)
+                elif r < 0.75 or fitted is None:
+                    fitted = rng.choice(["A", "B"])
+                    hist.append(f"fit({fitted})")
+                    det.fit(A if fitted == "A" else B)
+                else:
+                    X = rng.choice([A, B])
+                    hist.append("predict(%s)" % ("A" if X is A else "B"))
+                    now = getv(det.get_params(deep=False)["collective_saving"])
+                    # the hyper-parameter may have been changed after the last fit through the shared cost object: the fresh detector is built with the
+                    # parameter reported NOW and fitted on the same training series (stale fitted state is the documented finding D20 of other detectors; CAPA's
+                    # fitted penalties do not depend on the cost's parameter, and its savings are refitted by predict)
+                    fresh = Det(collective_saving=mkcost(now), min_segment_length=2).fit(A if fitted == "A" else B)
+                    got, want = _canon(det.predict(X)), _canon(fresh.predict(X))
+                    gs, ws = det.transform_scores(X).to_numpy(), fresh.transform_scores(X).to_numpy()
+                    ctx.case({"capa_params": h, "i": step}, nontrivial=len(hist) > 2)
+                    ctx.count("capa_params_op", "predict")
+                    if got != want or not np.allclose(gs, ws, rtol=1e-9, atol=1e-9):
+                        ctx.violation(f"{Det.__name__}: after the history {hist} predict / transform_scores differ from a fresh detector built from the reported hyper-parameters "
+                                      f"(baseline mean {now}) and fitted on {fitted}: {str(got)[:120]} vs {str(want)[:120]}", dict(inp, got=str(got), fresh=str(want), reported_mean=now),
+                                      {"what": "stale-nested-hyperparameter", "detector": Det.__name__, "tuned": False})
+                        break
+            except Exception as ex:
+                ctx.violation(f"{Det.__name__}: {hist[-1]} raised {type(ex).__name__}: {str(ex)[:120]} in the history {hist}", inp,
+                              {"what": "exception", "op": "capa-params", "cls": type(ex).__name__})
+                break
 
 
 def wrapper_stream(ctx, DATA):
